@@ -5,9 +5,11 @@ one-row tables included) x every key form x every call variant is pushed through
 returned rows are compared, as type-faithful multisets, with key multiplicities counted by a boring
 reference (mc.refs.dedupref).  conflicts() is checked for SOUNDNESS ONLY (the statement says "returns only").
 """
+import enum
 import itertools
 
 import petl as etl
+import petl.config as petl_config
 
 from .. import spaces
 from ..refs import dedupref as dr
@@ -25,7 +27,10 @@ RULE = ('every rectangular table with n rows (0..max, header-only and single-row
         'duplicates+unique partition, distinct, distinct(count=), conflicts (include/exclude forms; missing markers '
         'identical to the cells (1), equal but of another type (1.0, True vs int 1) and equal but a different object '
         '(run-time built str, parsed float, tuple, large int: cells and argument are built by separate calls)), '
-        'isunique}; states = distinct (table, key, variant) points; transitions = operator evaluations; a state '
+        'isunique}; plus subclass-instance key cells (int/float/str subclasses and IntEnum members equal to a plain '
+        'value in the column); plus failed-first-pass histories: each operator over a source that fails once at every '
+        'item position, buffersize 1..n by argument and via petl.config.sort_buffersize, cache=True, passes 2 and 3 '
+        'of the same view against the reference; states = distinct (table, key, variant) points; transitions = operator evaluations; a state '
         'is non-trivial when the table holds both a key occurring once and a key occurring more than once')
 ASSUMPTIONS = [
     'tables have <= 4 (thorough 5) rows; cells range over K4/K6 key representatives chosen by the seed, None included',
@@ -41,6 +46,44 @@ ASSUMPTIONS = [
 
 _P = {}
 COUNT = 'n'
+
+
+# Key cells that are instances of SUBCLASSES of the built-in cell types: equal (==, same hash) to the plain value,
+# so they are the same key; a different row (another class).  In replay files they travel as tagged dicts.
+class Code(int):
+    pass
+
+
+class Ratio(float):
+    pass
+
+
+class Txt(str):
+    pass
+
+
+Level = enum.IntEnum('Level', dict(('L%d' % i, i) for i in (1, 2, 3, 5, 6, 7, 10)))
+Level.__module__ = __name__
+_SUBCLASSES = {'Code': Code, 'Ratio': Ratio, 'Txt': Txt, 'Level': Level}
+_PLAIN = {'Code': int, 'Ratio': float, 'Txt': str, 'Level': int}
+
+
+def freeze_rows(rows):
+    """Rows for a replay case: subclass instances become {'__sub__': class name, 'v': plain value}."""
+    def cell(c):
+        name = type(c).__name__
+        if _SUBCLASSES.get(name) is type(c):
+            return {'__sub__': name, 'v': _PLAIN[name](c)}
+        return c
+    return [tuple(cell(c) for c in r) for r in rows]
+
+
+def thaw_rows(rows):
+    def cell(c):
+        if isinstance(c, dict) and '__sub__' in c:
+            return _SUBCLASSES[c['__sub__']](c['v'])
+        return c
+    return [tuple(cell(c) for c in r) for r in rows]
 
 
 HEADER_NAMINGS_2 = [('name', 0), (1, 0), (0, 0), (None, 'v'), (1.5, 'v'), ('v', 'v'), ('1', 1), (7, 'v'), (True, 'y')]
@@ -97,6 +140,11 @@ def _families(tier, seed):
     fams['seq2'] = dict(hdr=('k', 'k2', 'v'), syms=[(k, k2, 1) for k in SQ[:2] + [i1] for k2 in SQ[:2] + [None]],
                         maxn=3, keys=[('k', 'k2'), ('k2', 'k'), 'k', None], variants=base, cargs=('plain',),
                         ops=('duplicates', 'unique', 'partition', 'distinct', 'distinct-count', 'conflicts'))
+    # subclass-instance key cells next to the equal plain value and another plain number that sorts between /
+    # after them: Code(i1) == Level(i1) == Ratio(i1) == i1 are ONE key, Txt(s1) == s1 likewise
+    SUB = [i1, Code(i1), Level(i1), Ratio(float(i1)), i2, K4[3], Txt(K4[3])]
+    fams['sub'] = dict(hdr=('k', 'v'), syms=[(k, v) for k in SUB for v in V], maxn=4 if thorough else 3,
+                       keys=['k', ('k', 'v'), None, 0], variants=base, cargs=('plain',))
     # strategy variants on a smaller family (the sort below the operators is C05's subject)
     fams['kvb'] = dict(hdr=('k', 'v'), syms=[(k, v) for k in K3 for v in V], maxn=4 if thorough else 3,
                        keys=[None, 'k'], variants=('bs1', 'bs2', 'bs1-nocache'), cargs=('plain',))
@@ -139,6 +187,13 @@ def setup(tier, seed):
     _P.clear()
     _P['tier'] = tier
     _P['fams'] = _families(tier, seed)
+    K3 = spaces.K3(seed)
+    thorough = tier == 'thorough'
+    tf = {'fp': dict(hdr=('k', 'v'), syms=[(k, v) for k in K3[:2] for v in (1, 2)], minn=1,
+                     maxn=4 if thorough else 3, keys=['k', None])}
+    if thorough:
+        tf['fp6'] = dict(hdr=('k', 'v'), syms=[(k, v) for k in K3 for v in (1, 2)], minn=1, maxn=3, keys=['k', None])
+    _P['tfams'] = tf
 
 
 def _cargs(name):
@@ -310,7 +365,7 @@ def check_table(acc, famname, fam, rows):
                 group = '%s | %s | %s' % (label, sig, where)
                 if op in _TIE_OPS and sort_tie_splits_equal_keys(hdr, use, key):
                     group += TIE_SUFFIX
-                case = {'kind': 'dedup', 'op': op, 'header': hdr, 'rows': use, 'key': key, 'variant': variant,
+                case = {'kind': 'dedup', 'op': op, 'header': hdr, 'rows': freeze_rows(use), 'key': key, 'variant': variant,
                         'cargs': cname}
                 acc.violation(group, case, expd, obs,
                               '%s on a %d-row table, key=%r, %s%s: %s'
@@ -329,6 +384,100 @@ def check_table(acc, famname, fam, rows):
                     # a group disagrees only through cells equal to the missing marker
                     acc.counters['missing-marker-decides:' + cname] += 1
     acc.counters['tables:' + famname] += 1
+
+
+# ------------------------------------------------------------------------------------------------
+# histories with a failed first pass (the operators sit on a sort view with a cache)
+# ------------------------------------------------------------------------------------------------
+
+FP_OPS = ('duplicates', 'unique', 'distinct', 'distinct-count', 'conflicts')
+
+
+def _judge_rows(op, hdr, rows, key, out):
+    """Judge one delivered table (list of rows, header first) of `op` against the reference."""
+    kf = dr.keyfn(hdr, key)
+    want_hdr = hdr + (COUNT,) if op == 'distinct-count' else hdr
+    if not out or tuple(out[0]) != tuple(want_hdr):
+        return ('header changed', tuple(want_hdr), tuple(out[0]) if out else None)
+    got = [tuple(r) for r in out[1:]]
+    if op == 'conflicts':
+        why = dr.conflicts_unsound(hdr, rows, key, got)
+        return (why, 'only rows of disagreeing duplicate groups', got) if why else None
+    want = {'duplicates': dr.duplicates, 'unique': dr.unique, 'distinct': dr.distinct,
+            'distinct-count': dr.distinct_counted}[op](rows, kf)
+    d = _rowdiff(want, got)
+    return (d, want, got) if d else None
+
+
+def failed_pass_case(case):
+    """op(source, key, buffersize <= nrows, cache=True) over a source that fails ONCE, at item `fail_at`
+    (0 = header, 1..n = data row, n+1 = at exhaustion): pass 1 may die; passes 2 and 3 over the SAME view must
+    deliver what the reference says for the full table.  Chunk size by argument or via
+    petl.config.sort_buffersize (kept set while the view is built and iterated, restored afterwards)."""
+    from ..sources import FlakyTable
+    hdr, rows, key, op = tuple(case['header']), thaw_rows(case['rows']), case['key'], case['op']
+    src = FlakyTable(hdr, rows, fail_at=case['fail_at'], times=1)
+    kw = {'cache': True}
+    viaconfig = case['bsmode'] == 'config'
+    if not viaconfig:
+        kw['buffersize'] = case['buffersize']
+    old = petl_config.sort_buffersize
+    try:
+        if viaconfig:
+            petl_config.sort_buffersize = case['buffersize']
+        if op == 'duplicates':
+            view = etl.duplicates(src, key, **kw)
+        elif op == 'unique':
+            view = etl.unique(src, key, **kw)
+        elif op == 'distinct':
+            view = etl.distinct(src, key, **kw)
+        elif op == 'distinct-count':
+            view = etl.distinct(src, key, count=COUNT, **kw)
+        else:
+            view = etl.conflicts(src, key, **kw)
+        try:
+            list(view)
+        except Exception:
+            pass
+        for p in (2, 3):
+            try:
+                out = list(view)
+            except Exception as e:
+                return ('pass %d raises' % p, None, '%s: %s' % (type(e).__name__, str(e)[:100]))
+            bad = _judge_rows(op, hdr, rows, key, out)
+            if bad:
+                return ('pass %d: %s' % (p, bad[0]), bad[1], bad[2])
+    finally:
+        petl_config.sort_buffersize = old
+    return None
+
+
+def check_failed_pass(acc, fam, rows):
+    hdr, n = fam['hdr'], len(rows)
+    for key in fam['keys']:
+        for op in FP_OPS:
+            if op == 'conflicts' and key is None:
+                continue
+            for bs in range(1, n + 1):
+                for bsmode in ('arg', 'config'):
+                    for fail_at in range(0, n + 2):
+                        case = {'kind': 'dedup-after-failed-pass', 'op': op, 'header': hdr, 'rows': freeze_rows(rows),
+                                'key': key, 'buffersize': bs, 'bsmode': bsmode, 'fail_at': fail_at}
+                        acc.states += 1
+                        acc.evals += 2
+                        acc.transitions += 3
+                        if fail_at >= 2 and bs < fail_at:     # at least one chunk was dumped before the failure
+                            acc.nontrivial += 1
+                        acc.counters['failed-pass:' + op] += 1
+                        bad = failed_pass_case(case)
+                        if bad:
+                            label = op if op != 'distinct-count' else 'distinct(count=)'
+                            acc.violation('%s | wrong result after a failed first pass of the same view' % label,
+                                          case, bad[1], bad[2],
+                                          '%s(key=%r, buffersize=%r via %s) on a %d-row source failing once at item %d: %s'
+                                          % (label, key, bs, bsmode, n, fail_at, bad[0]))
+                        else:
+                            acc.outcome(('fp', op, n, fail_at, bs))
 
 
 # ------------------------------------------------------------------------------------------------
@@ -360,6 +509,12 @@ def items(tier, seed):
         for n in range(fam.get('minn', 0), fam['maxn'] + 1):
             for lo, hi in _ranges(b ** n, ITEM_MS / _table_ms(fam, n)):
                 out.append((name, n, lo, hi))
+    for name, fam in _P['tfams'].items():
+        b = len(fam['syms'])
+        for n in range(fam['minn'], fam['maxn'] + 1):
+            per_table = 9 * n * 2 * (n + 2) * (0.6 + 0.5 * n)      # histories x ~ms each
+            for lo, hi in _ranges(b ** n, ITEM_MS / per_table):
+                out.append(('failed-pass:' + name, n, lo, hi))
     out.sort(key=lambda it: it[1])
     res = []
     for n, grp in itertools.groupby(out, key=lambda it: it[1]):
@@ -369,6 +524,11 @@ def items(tier, seed):
 
 def bounds(tier, seed):
     b = {}
+    for name, fam in _P['tfams'].items():
+        b['failed-pass:' + name] = {'header': list(fam['hdr']), 'row_symbols': len(fam['syms']),
+                                    'rows': [fam['minn'], fam['maxn']], 'keys': [repr(k) for k in fam['keys']],
+                                    'operators': list(FP_OPS), 'fail_at': '0..n+1 (once)', 'buffersize': '1..n',
+                                    'bsmode': ['arg', 'config'], 'cache': True, 'passes_checked': [2, 3]}
     for name, fam in _P['fams'].items():
         b[name] = {'header': list(fam['hdr']), 'row_symbols': len(fam['syms']),
                    'rows': [fam.get('minn', 0), fam['maxn']],
@@ -380,6 +540,11 @@ def bounds(tier, seed):
 
 def run_item(item, acc):
     name, n, lo, hi = item
+    if name.startswith('failed-pass:'):
+        fam = _P['tfams'][name.split(':', 1)[1]]
+        for index in range(lo, hi):
+            check_failed_pass(acc, fam, _table(fam, n, index))
+        return
     fam = _P['fams'][name]
     for index in range(lo, hi):
         check_table(acc, name, fam, _table(fam, n, index))
@@ -389,7 +554,9 @@ def run_item(item, acc):
 
 
 def replay(case):
-    return eval_op(case['op'], tuple(case['header']), [tuple(r) for r in case['rows']], case['key'],
+    if case['kind'] == 'dedup-after-failed-pass':
+        return failed_pass_case(case)
+    return eval_op(case['op'], tuple(case['header']), thaw_rows(case['rows']), case['key'],
                    case['variant'], case.get('cargs'))
 
 
@@ -405,6 +572,9 @@ def vacuity(cov, tier):
         for cname in fam['cargs']:
             if 'missing' in _cargs(cname) and not c.get('missing-marker-decides:' + cname):
                 problems.append('missing marker form %s never decides a case' % cname)
+    for op in FP_OPS:
+        if not c.get('failed-pass:' + op):
+            problems.append('no failed-pass history for %s' % op)
     if not c.get('conflicts-possible'):
         problems.append('no table on which conflicts() may return rows')
     return problems
@@ -444,7 +614,7 @@ def _cls_sort_tie_splits_equal_keys(group, case, params):
     """True only for cases whose input satisfies sort_tie_splits_equal_keys (and whose group carries the suffix)."""
     if case.get('kind') != 'dedup' or case.get('op') not in _TIE_OPS or not group.endswith(TIE_SUFFIX):
         return False
-    return sort_tie_splits_equal_keys(case['header'], case['rows'], case['key'])
+    return sort_tie_splits_equal_keys(case['header'], thaw_rows(case['rows']), case['key'])
 
 
 CLASSIFIERS = {'distinct_count_header_only': _cls_distinct_count_header_only,
